@@ -10,6 +10,8 @@ of the event loop:
                 released by `WithoutSemaphore.__aenter__`, the first tasks grantted by the semaphore);
 * `finish i`  — the gate of running task `i` opens: its body ends with its scripted outcome, `async with sema` releases the
                 permit, the semaphore wakes the next waiter, `asyncio.gather` / the pool react, the helper possibly returns;
+* `cancelCaller` — `task.cancel()` on the coroutine that is suspended inside the helper (in `await asyncio.gather(…)`, in the body
+                of the `async with pool:` block, or in the pool's `__aexit__`);
 * `body`      — (`OnlineBoundedGather2` only) the body of the `async with pool:` block, which submitted every task and then
                 waited on its own gate, ends with its scripted outcome and `__aexit__` runs.
 
@@ -25,6 +27,14 @@ namespace HailVerif.Gather
 inductive Outcome where
   | ret (v : Nat)
   | raise (e : Nat)
+  /-- the body itself ends in `asyncio.CancelledError` (an inner timeout / cancel scope) -/
+  | cancel
+  deriving DecidableEq, Repr
+
+/-- an exception a helper can raise: a task's / the body's exception `e`, or `asyncio.CancelledError` -/
+inductive Exn where
+  | code (e : Nat)
+  | cancelled
   deriving DecidableEq, Repr
 
 /-- how a task body ended -/
@@ -61,8 +71,11 @@ inductive HSt where
   | exiting
   /-- the helper returned; one entry per task, in submission order (`ok v` = value, `err e` = the pair `(None, e)`) -/
   | returned (slots : List Res)
-  /-- the helper raised exception `e` -/
-  | raised (e : Nat)
+  /-- the helper raised exception `x` -/
+  | raised (x : Exn)
+  /-- online: the caller was cancelled while `__aexit__` was waiting for the tasks: `__aexit__` raised `CancelledError` without
+  shutting the pool down — the tasks are still pending (open finding F5) -/
+  | abandoned
   deriving DecidableEq, Repr
 
 /-- how the helper was entered -/
@@ -97,7 +110,7 @@ structure State where
   free : Nat
   helper : HSt
   /-- online: `self._exception` (set ⇔ the pool is shut down, `self._pending is None`) -/
-  exc : Option Nat
+  exc : Option Exn
   /-- number of tasks that were not finished at the moment the helper returned / raised (`asyncio.all_tasks()` seen from the
   caller's continuation) -/
   pendingAtReturn : Nat
@@ -106,15 +119,24 @@ structure State where
 inductive Op where
   | finish (i : Nat)
   | body (o : Outcome)
+  | cancelCaller
   deriving DecidableEq, Repr
 
 def resOf : Outcome → Res
   | .ret v => .ok v
   | .raise e => .err e
+  | .cancel => .cancelled
 
-def errOf : Outcome → Option Nat
+/-- what `asyncio.gather(*tasks)` sees when a task ends like this: a cancelled child counts as raising `CancelledError` -/
+def failureOf : Outcome → Option Exn
   | .ret _ => none
-  | .raise e => some e
+  | .raise e => some (.code e)
+  | .cancel => some .cancelled
+
+/-- what the online pool sees: `run_and_cleanup` swallows `CancelledError` ("the task is considered complete") -/
+def poolFailureOf : Outcome → Option Exn
+  | .raise e => some (.code e)
+  | _ => none
 
 def isDone : TSt → Bool
   | .done _ => true
@@ -196,7 +218,7 @@ def releaseOwn (s : State) : State :=
   { s with st := p.2, free := p.1 }
 
 /-- online: `self._exception = e` (the pool is shut down) -/
-def withExc (s : State) (e : Nat) : State := { s with exc := some e }
+def withExc (s : State) (x : Exn) : State := { s with exc := some x }
 
 /-- the helper returns the results in submission order; `WithoutSemaphore.__aexit__` has re-acquired the caller's permit; the
 caller leaves its block -/
@@ -205,10 +227,26 @@ def returnNow (s : State) : State :=
 
 /-- the helper raises `e` with `pend` tasks unfinished at that instant (`reacquired`: whether a `WithoutSemaphore.__aexit__`
 took the caller's permit back first — it does not when an exception is propagating); the caller leaves its block -/
-def raiseNow (s : State) (e pend : Nat) (reacquired : Bool) : State :=
-  leave { s with helper := .raised e, free := if reacquired then s.free - 1 else s.free, pendingAtReturn := pend }
+def raiseNow (s : State) (x : Exn) (pend : Nat) (reacquired : Bool) : State :=
+  leave { s with helper := .raised x, free := if reacquired then s.free - 1 else s.free, pendingAtReturn := pend }
 
-/-- one step.  `none` = not a behaviour (only a running task can finish; only a running body can end). -/
+/-- online: the body of the `async with pool:` block ends (`f` = its exception, if any) and `__aexit__` runs -/
+def bodyEnds (s : State) (f : Option Exn) : State :=
+  match f, s.exc with
+  | some x, none =>
+    -- `__aexit__(exc_val)`: `self._exception = exc_val; await self._shutdown()` cancels every pending task and waits for
+    -- them (`await asyncio.wait(cancelled)`), then `__aexit__` raises
+    raiseNow (withExc (cancelFirst s s.st.length) x) x 0 false
+  | _, some x0 =>
+    -- a task failed during the body: the pool is already shut down; a body exception is logged and discarded
+    raiseNow s x0 0 false
+  | none, none =>
+    -- `async with WithoutSemaphore(self._sema): await self._done_event.wait()`
+    let s1 := releaseOwn s
+    if allDone s1.st then returnNow s1 else { s1 with helper := .exiting }
+
+/-- one step.  `none` = not a behaviour (only a running task can finish; only a running body can end; only a caller that is still
+inside the helper can be cancelled there). -/
 def step (s : State) : Op → Option State
   | .finish i =>
     match s.st[i]?, s.outs[i]? with
@@ -216,55 +254,59 @@ def step (s : State) : Op → Option State
       let s1 := complete s i o
       match s.flavour with
       | .returnExceptions =>
+        -- `except: return (None, exc)` catches everything, `CancelledError` included;
         -- `return await asyncio.gather(*tasks)` once every task is done
         if s.helper = .active ∧ allDone s1.st then some (returnNow s1) else some s1
       | .raiseFirst =>
-        match s.helper, o with
-        | .active, .raise e =>
-          -- gather propagates the first exception; `WithoutSemaphore.__aexit__` does NOT re-acquire on error; the other
-          -- tasks keep running
-          some (raiseNow s1 e (nNotDone s1.st) false)
-        | .active, .ret _ => if allDone s1.st then some (returnNow s1) else some s1
+        match s.helper, failureOf o with
+        | .active, some x =>
+          -- gather propagates the first exception (a cancelled child counts as `CancelledError`);
+          -- `WithoutSemaphore.__aexit__` does NOT re-acquire on error; the other tasks keep running
+          some (raiseNow s1 x (nNotDone s1.st) false)
+        | .active, none => if allDone s1.st then some (returnNow s1) else some s1
         | _, _ => some s1
       | .raiseCancel =>
-        match s.helper, o with
-        | .active, .raise e =>
-          -- `finally:` … `for task in tasks: if not task.done(): task.cancel()`, then
+        match s.helper, failureOf o with
+        | .active, some x =>
+          -- `finally:` (for ANY exception, `CancelledError` included) `for task in tasks: if not task.done(): task.cancel()`, then
           -- `async with WithoutSemaphore(sema): await asyncio.wait(tasks)` (releases and re-acquires one permit: net nothing),
           -- then the original exception propagates: every task is finished when the helper raises
-          some (raiseNow (cancelFirst s1 s1.st.length) e 0 false)
-        | .active, .ret _ => if allDone s1.st then some (returnNow s1) else some s1
+          some (raiseNow (cancelFirst s1 s1.st.length) x 0 false)
+        | .active, none => if allDone s1.st then some (returnNow s1) else some s1
         | _, _ => some s1
       | .online =>
-        match o with
-        | .ret _ =>
+        match poolFailureOf o with
+        | none =>
           -- `del self._pending[id]; if not self._pending: self._done_event.set()`
           if s.helper = .exiting ∧ allDone s1.st then some (returnNow s1) else some s1
-        | .raise e =>
+        | some x =>
           -- `self._exception = exc; await asyncio.shield(self._shutdown())`: every pending task (this one included) is
-          -- cancelled, `self._pending = None`, `self._done_event.set()`
-          let s2 := withExc (cancelFirst s1 s1.st.length) e
+          -- cancelled and awaited, `self._pending = None`, `self._done_event.set()`
+          let s2 := withExc (cancelFirst s1 s1.st.length) x
           match s.helper with
           | .exiting =>
             -- `__aexit__` wakes after the cancelled tasks have run, re-acquires and raises `self._exception`
-            some (raiseNow s2 e 0 true)
+            some (raiseNow s2 x 0 true)
           | _ => some s2
     | _, _ => none
   | .body o =>
+    match s.flavour, s.helper, o with
+    | .online, .active, .ret _ => some (bodyEnds s none)
+    | .online, .active, .raise e => some (bodyEnds s (some (.code e)))
+    | _, _, _ => none
+  | .cancelCaller =>
     match s.flavour, s.helper with
     | .online, .active =>
-      match o, s.exc with
-      | .raise e, none =>
-        -- `__aexit__(exc_val)`: `self._exception = exc_val; await self._shutdown()` cancels every pending task and waits for
-        -- them (`await asyncio.wait(cancelled)`), then `__aexit__` raises
-        some (raiseNow (withExc (cancelFirst s s.st.length) e) e 0 false)
-      | _, some e0 =>
-        -- a task failed during the body: the pool is already shut down; a body exception is logged and discarded
-        some (raiseNow s e0 0 false)
-      | .ret _, none =>
-        -- `async with WithoutSemaphore(self._sema): await self._done_event.wait()`
-        let s1 := releaseOwn s
-        if allDone s1.st then some (returnNow s1) else some { s1 with helper := .exiting }
+      -- the body is resumed with `CancelledError`
+      some (bodyEnds s (some .cancelled))
+    | .online, .exiting =>
+      -- `await self._done_event.wait()` inside `__aexit__` is resumed with `CancelledError`: `WithoutSemaphore.__aexit__` does not
+      -- re-acquire, `__aexit__` has no clean-up around the wait: it raises and the tasks are neither cancelled nor awaited
+      some (leave { s with helper := .abandoned, pendingAtReturn := nNotDone s.st })
+    | _, .active =>
+      -- `outer.cancel()` of `asyncio.gather` cancels every child; the helper is resumed with `CancelledError` when they are done
+      -- (`cancel_on_error`'s `finally:` finds nothing left to cancel)
+      some (raiseNow (cancelFirst s s.st.length) .cancelled 0 false)
     | _, _ => none
 
 /-! ### the code before the repairs b83b6cc09 (F1), 2f78d4573 (F2), 426463a22 (F3) — kept to document the repaired defects -/
@@ -289,11 +331,11 @@ def stepOld (s : State) : Op → Option State
     match s.st[i]?, s.outs[i]?, s.flavour, s.helper with
     | some .running, some (.raise e), .raiseCancel, .active =>
       let s1 := complete s i (.raise e)
-      some (raiseNow (cancelFirst s1 i) e (nNotDone s1.st) false)
+      some (raiseNow (cancelFirst s1 i) (.code e) (nNotDone s1.st) false)
     | _, _, _, _ => step s (.finish i)
   | .body (.raise e) =>
     match s.flavour, s.helper, s.exc with
-    | .online, .active, none => some (raiseNow (withExc (cancelFirst s s.st.length) e) e (nNotDone s.st) false)
+    | .online, .active, none => some (raiseNow (withExc (cancelFirst s s.st.length) (.code e)) (.code e) (nNotDone s.st) false)
     | _, _, _ => step s (.body (.raise e))
   | op => step s op
 
@@ -311,14 +353,25 @@ def runFrom : State → List Op → Option State
     | none => none
     | some s' => runFrom s' ops
 
-/-- the first exception in schedule order: of the finished task bodies and (online) the `async with` body -/
-def firstErr (outs : List Outcome) : List Op → Option Nat
+/-- the exception, if any, that the end of a task body means to helper `fl` -/
+def taskFailure (fl : Flavour) (o : Outcome) : Option Exn :=
+  match fl with
+  | .returnExceptions => none
+  | .online => poolFailureOf o
+  | _ => failureOf o
+
+/-- the first exception in schedule order that helper `fl` gets to see: of the finished task bodies, of the `async with` body
+(online), or the cancellation of its caller -/
+def firstErr (fl : Flavour) (outs : List Outcome) : List Op → Option Exn
   | [] => none
   | .finish i :: r =>
-    match outs[i]? with
-    | some (.raise e) => some e
-    | _ => firstErr outs r
-  | .body (.raise e) :: _ => some e
-  | .body (.ret _) :: r => firstErr outs r
+    match (outs[i]?).bind (taskFailure fl) with
+    | some x => some x
+    | none => firstErr fl outs r
+  | .body o :: r =>
+    match failureOf o with
+    | some x => some x
+    | none => firstErr fl outs r
+  | .cancelCaller :: _ => some .cancelled
 
 end HailVerif.Gather
